@@ -1,4 +1,5 @@
 import HdVerif.Proofs.Coding
+import HdVerif.Proofs.CodingTie
 /-! # C17  Coded concepts behave as values under equality, hashing and I/O
 
 Objects are pydicom `Code`s and highdicom `CodedConcept`s (`Obj.code` / `Obj.concept`), in any mix.
@@ -373,6 +374,39 @@ theorem counterexample_second_value_attribute :
       "LongCodeValue" "1273800612738006X"
     prop d "value" = .ok (some "12738006") ∧ ¬ (Obj.concept d).wf ∧ (Obj.concept d).readable := by
   decide
+
+/-! ## bridges: the hand-written dispatch follows the programs regenerated from the source -/
+
+/-- `CodedConcept.__eq__` (regenerated as `Gen.conceptEqPlan`): for a `Code` and for a `CodedConcept` on the right the
+source takes the branch `Code.__eq__(Code(<eqThisArgs>), other)` — which is what the model's `objEq` computes -/
+theorem tie_eq_dispatch (retired : String → String → Option String) (d : DS) (b : Obj) :
+    conceptEqPlan b.isCode (!b.isCode) = .ok 0 ∧
+    objEq retired (.concept d) b =
+      (match conceptEqPlan b.isCode (!b.isCode) with
+       | .ok 0 => (match thisOf d with
+         | .error e => .error e
+         | .ok this => codeEq retired this b)
+       | _ => .error .other) :=
+  objEq_follows_plan retired d b
+
+/-- `CodedConcept.__ne__` (regenerated as `Gen.conceptNeOf`): the model's `!=` is that expression of `==` -/
+theorem tie_ne_expression (retired : String → String → Option String) (d : DS) (b : Obj) :
+    objNe retired (.concept d) b =
+      (match objEq retired (.concept d) b with
+       | .error e => .error e
+       | .ok r => conceptNeOf r) :=
+  objNe_follows_expression retired d b
+
+/-- `CodedConcept.from_code` (regenerated as `Gen.fromCodePlan`): concepts are returned as they are, codes are unpacked -/
+theorem tie_from_code (d : DS) :
+    fromCodePlan true = .ok 0 ∧ fromCodePlan false = .ok 1 ∧
+    fromCode (.concept d) = (match fromCodePlan true with
+      | .ok 0 => .ok (.concept d)
+      | _ => .error .other) :=
+  fromCode_follows_plan d
+
+example : conceptEqPlan true false = .ok 0 ∧ conceptEqPlan false true = .ok 0 ∧ conceptEqPlan false false = .ok 1 ∧
+    conceptNeOf true = .ok false := by decide
 
 /-! ## non-vacuity: the hypotheses are satisfiable by concrete, non-trivial inputs -/
 
